@@ -46,8 +46,11 @@ func SeqProfileFor(name string, seed int64) SeqProfile {
 		p.Prologue = []string{"", "block1"}[r.Intn(2)]
 	case "c02": // atomicity: rollbacks, failing inserts, an observer looking in mid-transaction, nothing emitted on rollback
 		p.Cols = []ColDesc{{"a", "int", "add", numRepr()}, {"s", "str", "concat", "string"}, {"b", "bool", "", "bool"}}
-		p.Idx = []IdxDesc{{"big", "a", "ge", 5}, {"on", "b", "true", 0}}
-		p.Trigs = [][2]string{{"ta", "a"}}
+		// (computed columns over the merged string too: "every change it buffered" includes what is derived from the final value)
+		p.Idx = []IdxDesc{{"big", "a", "ge", 5}, {"on", "b", "true", 0}, {"sa", "s", "eq", []int{0}}}
+		p.Trigs = [][2]string{{"ta", "a"}, {"ts", "s"}}
+		p.Sorts = [][2]string{{"byS", "s"}}
+		p.SortFirst = r.Intn(2) == 0
 		p.PRollback, p.PFailIns, p.PObserve = 0.35, 0.3, 0.3
 		p.Replica = true
 	case "c03": // indexes: several per column, created and dropped at any point, on primary and replica
